@@ -63,6 +63,39 @@ impl<K: PartialEq + Copy, V> SmallMap<K, V> {
     pub fn contains_key(&self, k: &K) -> bool {
         self.pos(k).is_some()
     }
+    pub fn iter(&self) -> std::vec::IntoIter<(&K, &V)> {
+        let mut v = Vec::new();
+        let mut i = 0;
+        while i < MAP_CAP {
+            if let Some((k, val)) = &self.items[i] {
+                v.push((k, &**val));
+            }
+            i += 1;
+        }
+        v.into_iter()
+    }
+    pub fn values(&self) -> std::vec::IntoIter<&V> {
+        let mut v = Vec::new();
+        let mut i = 0;
+        while i < MAP_CAP {
+            if let Some((_, val)) = &self.items[i] {
+                v.push(&**val);
+            }
+            i += 1;
+        }
+        v.into_iter()
+    }
+    pub fn keys(&self) -> std::vec::IntoIter<&K> {
+        let mut v = Vec::new();
+        let mut i = 0;
+        while i < MAP_CAP {
+            if let Some((k, _)) = &self.items[i] {
+                v.push(k);
+            }
+            i += 1;
+        }
+        v.into_iter()
+    }
     pub fn len(&self) -> usize {
         let mut n = 0;
         let mut i = 0;
@@ -191,6 +224,17 @@ impl<K: Ord + Copy, V> OrdMap<K, V> {
     }
     pub fn values(&self) -> Values<'_, K, V> {
         Values { m: self, i: 0 }
+    }
+    pub fn keys(&self) -> std::vec::IntoIter<&K> {
+        let mut v = Vec::new();
+        let mut i = 0;
+        while i < ORD_CAP {
+            if let Some((k, _)) = &self.items[i] {
+                v.push(k);
+            }
+            i += 1;
+        }
+        v.into_iter()
     }
     pub fn range<R: std::ops::RangeBounds<K>>(&self, r: R) -> std::vec::IntoIter<(&K, &V)> {
         let mut v = Vec::new();
